@@ -59,6 +59,20 @@ def streams(kind: str, maxlen: int) -> List[Dict[str, Any]]:
 
 
 def stream_bytes(s: Dict[str, Any]):
+    if s["table"] == "burst":
+        # n lines, more than the transport's stream buffers hold: notifications, responses, junk interleaved
+        text = ""
+        names = [f"burst{s['n']}"]
+        for i in range(s["n"]):
+            k = i % 5
+            if k == 3:
+                text += "junk line %d {\n" % i
+            elif k == 1:
+                text += J + '"id":%d,"result":{"i":%d}}\n' % (i, i)
+            else:
+                text += J + '"method":"notifications/message","params":{"i":%d}}\n' % i
+        text += SENTINEL + "\n"
+        return text.encode("utf-8"), names
     table = LINES_LONG if s["table"] == "long" else LINES_SHORT
     units = [(n, t, term) for (n, t) in table for term in ("LF", "CRLF")]
     text = ""
@@ -120,12 +134,18 @@ def run_one(ctl: explorer.Ctl, cfg: Dict[str, Any]) -> Dict[str, Any]:
                 for ch in chunks:
                     proc.stdout.feed(ch)
                     await q.settle()
-                for stream, sink in ((read, got), (client.notifications, notes)):
-                    try:
-                        while True:
-                            sink.append(stream.receive_nowait())
-                    except (anyio.WouldBlock, anyio.EndOfStream, anyio.ClosedResourceError):
-                        pass
+                # drain until nothing more arrives (a reader blocked on a full stream continues once there is room)
+                for _ in range(20):
+                    n0 = len(got) + len(notes)
+                    for stream, sink in ((read, got), (client.notifications, notes)):
+                        try:
+                            while True:
+                                sink.append(stream.receive_nowait())
+                        except (anyio.WouldBlock, anyio.EndOfStream, anyio.ClosedResourceError):
+                            pass
+                    await q.settle()
+                    if len(got) + len(notes) == n0:
+                        break
                 info["reader_tasks"] = len([t for t in __import__("asyncio").all_tasks(loop) if not t.done()])
             info["spawned"] = len(pp.spawned)
 
@@ -179,7 +199,13 @@ def run_one(ctl: explorer.Ctl, cfg: Dict[str, Any]) -> Dict[str, Any]:
             det = {"cut": where_cut()}
         viol.append({"sig": {"class": cls, **det},
                      "msg": f"lines={names} cuts={cuts}: delivered {got_ids} expected {exp_ids}"})
-    if not (len(dnotes) == len(exp_notes) and all(strict_eq(norm(a), norm(b)) for a, b in zip(dnotes, exp_notes))):
+    # the notification side channel is "offered" (best effort, 100 slots, never back-pressures): when more than 100
+    # notifications are pending there, it must hold a prefix of them; otherwise all of them
+    if len(exp_notes) > 100:
+        exp_notes_cmp = exp_notes[: len(dnotes)] if 100 <= len(dnotes) <= len(exp_notes) else exp_notes
+    else:
+        exp_notes_cmp = exp_notes
+    if not (len(dnotes) == len(exp_notes_cmp) and all(strict_eq(norm(a), norm(b)) for a, b in zip(dnotes, exp_notes_cmp))):
         viol.append({"sig": {"class": "notification-stream-mismatch", "cut": where_cut()},
                      "msg": f"lines={names} cuts={cuts}: notification stream {dnotes} expected {exp_notes}"})
     if errors:
@@ -213,6 +239,15 @@ def configs_for(tier: str):
         for c in range(1, n):
             g.append({"stream": s, "cuts": [c]})
     groups["single-cut-every-position"] = g
+    # (1b) bursts longer than the transport's 100-slot buffers, in one read, a few reads, and line-sized reads
+    g = []
+    for n in (99, 100, 101, 150, 260):
+        st = {"table": "burst", "n": n}
+        L = len(stream_bytes(st)[0])
+        g.append({"stream": st, "cuts": []})
+        g.append({"stream": st, "cuts": [L // 3, 2 * L // 3]})
+        g.append({"stream": st, "cuts": list(range(64, L, 64))})
+    groups["bursts-beyond-buffer-size"] = g
     # (2) every pair of cuts on short streams
     g = []
     short = streams("short", 1) + (streams("short", 2) if tier == "thorough" else [])
